@@ -43,3 +43,5 @@ run C12-w7m3 C10
 run C12-w7m2 C02
 run C12-w11m2 C17
 run C16-w11m3 C17
+run C17-w4m2 C02
+run C17-w4m2 C16
